@@ -102,10 +102,40 @@ def judge(c, impl, model):
     return corr, not what, '; '.join(what)
 
 
+def corner_stream(ck, replay):
+    """callees outside the scripted stream (parameters named like the machinery's keywords, callables without __name__):
+    impl-only table judged by the statement (invocation count, arguments unchanged, last outcome is the result)"""
+    if replay is None:
+        n = ck.run_impl('w_retry', [{'obs': 'corner', 'size': 1}], shards=1)[0]['size']
+        idx = list(range(n))
+    else:
+        idx = [replay['case']['i']]
+    res = ck.run_impl('w_retry', [{'obs': 'corner', 'i': i} for i in idx], shards=1)
+    for i, r in zip(idx, res):
+        if r is None or 'error' in r:
+            ck.oblige('impl-worker:corner', 'correspondence', False, str(r))
+            continue
+        ck.note_case('corner-%d' % i, nontrivial=True)
+        what = []
+        if r['n_calls'] != r['expect_calls']:
+            what.append(f'{r["n_calls"]} invocations, the statement demands {r["expect_calls"]}')
+        if not r['args_unchanged']:
+            what.append('an attempt did not receive the caller\'s arguments unchanged')
+        if not r['result_is_last']:
+            what.append(f'the caller did not see the outcome of the last invocation ({r["kind"]}: {r["exc"]})')
+        if what:
+            ck.violation(r['name'] + ': ' + '; '.join(what), {'obs': 'corner', 'i': i, 'name': r['name'], 'outs': [], 'attempts': 4},
+                         stream='corner', extra={'impl': r})
+    ck.coverage['corner_callees'] = len(idx)
+
+
 def run(tier, seed, replay=None):
     ck = Check('C15', tier, seed, UNITS, MODEL, PROPS)
     ck.prepare()
-    cases = gen_cases(ck.rng, tier) if replay is None else [replay['case']]
+    if replay is not None and replay['case'].get('obs') == 'corner':
+        cases = []
+    else:
+        cases = gen_cases(ck.rng, tier) if replay is None else [replay['case']]
     impl = ck.run_impl('w_retry', cases, timeout=600)
     model = ck.coq_eval(PRE, [coq_case(c) for c in cases]) if ck.model_ok else [None] * len(cases)
     hist = {}
@@ -125,10 +155,13 @@ def run(tier, seed, replay=None):
             disagreements.append({'case': c, 'impl': i, 'model': m, 'what': what})
     # shrink: prefer the violation with the shortest outcome list
     ck.violations.sort(key=lambda v: (len(v['case']['outs']), abs(v['case']['attempts'])))
+    if replay is None or replay['case'].get('obs') == 'corner':
+        corner_stream(ck, replay)
     ck.oblige('correspondence:retry', 'correspondence', not disagreements,
               json.dumps(disagreements[0])[:900] if disagreements else f'{ck.traces_validated} traces agree')
-    ck.coverage.update({'outcome_kind_histogram': hist, 'attempts_range': [min(c['attempts'] for c in cases), max(c['attempts'] for c in cases)],
-                        'max_sequence_length': max(len(c['outs']) for c in cases), 'disagreements': len(disagreements)})
+    if cases:
+        ck.coverage.update({'outcome_kind_histogram': hist, 'attempts_range': [min(c['attempts'] for c in cases), max(c['attempts'] for c in cases)],
+                            'max_sequence_length': max(len(c['outs']) for c in cases), 'disagreements': len(disagreements)})
     ck.samples = [{'case': c, 'impl': i, 'model': m} for c, i, m in list(zip(cases, impl, model))[:3] + list(zip(cases, impl, model))[-3:]]
     ck.assumptions = ['time.sleep is patched in the harness process', 'logger output is not compared',
                       'exception classes form a single-inheritance tree (paths); isinstance(e, exceptions) is prefix matching']
